@@ -437,6 +437,54 @@ theorem roach_params_valid (bias : Bool) (sign : Int) :
   · constructor <;> (try simp only) <;> (try split) <;> (try split) <;> (try decide) <;> (try omega)
   · constructor <;> simp only <;> (try split) <;> (try omega) <;> (try decide)
 
+theorem runV_length (p : Params) : ∀ (vs : List Nat) (s : St), (runV p s vs).2.length = vs.length
+  | [], s => by simp [runV]
+  | v :: vs, s => by simp [runV, runV_length p vs]
+
+/-- one channel of a ROACH device over its data blocks -/
+def roachChan (bias : Bool) (sign : Int) (blocks : List (List Nat)) : Option (List (List Nat)) :=
+  (roachMk bias sign).map fun (p, s) => (runCalls p s blocks).2
+
+/-- **C12 for a ROACH channel** (`samplePacket` + `readPackets`, any option set, any sequence of data blocks of
+any lengths): every output sample equals the input sample, masked to 14 bits and with 2 bits dropped, plus a
+whole number of quanta (2^12); and the concatenated output does not depend on how the stream was cut into
+blocks (`runCalls_flatten`). -/
+theorem C12_roach_output_mod_quantum (bias : Bool) (sign : Int) (blocks : List (List Nat)) :
+    ∃ outs, roachChan bias sign blocks = some outs ∧
+      outs.flatten.length = blocks.flatten.length ∧
+      (∀ k (hk : k < blocks.flatten.length) (hk' : k < outs.flatten.length),
+        outs.flatten[k] % 4096 = ((blocks.flatten[k] &&& 16383) >>> 2) % 4096) ∧
+      (∀ blocks', blocks'.flatten = blocks.flatten →
+        ∃ outs', roachChan bias sign blocks' = some outs' ∧ outs'.flatten = outs.flatten) := by
+  have hmk := roachMk_eq bias sign
+  obtain ⟨p, s, b, hmk', hv, hg, _, hdrop, hen, htp, _, _⟩ := roach_params_valid bias sign
+  have hmask : p.signMask = 16383 := by
+    rw [hmk] at hmk'
+    have := (Option.some.inj hmk')
+    rw [← (Prod.mk.inj this).1]
+  have hinv : p.invert = false := by
+    rw [hmk] at hmk'
+    have := (Option.some.inj hmk')
+    rw [← (Prod.mk.inj this).1]
+  have hd : p.drop ≠ 0 := by omega
+  refine ⟨(runCalls p s blocks).2, by unfold roachChan; rw [hmk']; rfl, ?_, ?_, ?_⟩
+  · rw [runCalls_flatten p hen hd, runV_length, List.length_map]
+  · intro k hk hk'
+    have hall : AllLt p.twoPi (blocks.flatten.map (pre p)) := by
+      intro v hv'
+      obtain ⟨raw, _, rfl⟩ := List.mem_map.mp hv'
+      exact pre_lt p 14 (by omega) (by rw [hmask]) (by rw [htp, hdrop]) raw
+    obtain ⟨hj, heq⟩ := C12_output_mod_quantum p b 2048 hv _ s hg hall k (by rw [List.length_map]; exact hk)
+    have hfl : (runCalls p s blocks).2.flatten = (runV p s (blocks.flatten.map (pre p))).2 :=
+      runCalls_flatten p hen hd blocks s
+    simp only [hfl]
+    rw [htp] at heq
+    rw [heq]
+    simp only [List.getElem_map, pre, hinv, hmask, hdrop, Bool.false_eq_true, if_false]
+  · intro blocks' hfl
+    refine ⟨(runCalls p s blocks').2, by unfold roachChan; rw [hmk']; rfl, ?_⟩
+    rw [runCalls_flatten p hen hd, runCalls_flatten p hen hd, hfl]
+
 /-- the unscaled bias level is NOT within half a quantum: limits 82 .. 4178, i.e. a reduced bias of 2130 > 2048 -/
 example : (mk 14 2 true 24904 20000 1 false).map (fun x => (x.1.lower, x.1.upper)) = some (82, 4178) := by decide
 
